@@ -201,3 +201,11 @@ _ext("C17", "The row helpers are driven with every spelling of 'no rows' (1-d em
 _ext("C02", "ttv with ONE bare ndarray multiplicand on every mode (singleton and longer) of all five representations is asserted")
 _ext("C01", "Kruskal / Tucker / sum holders report ndims / shape consistently (sum tensors with exactly 1, 2, 3 parts); sptensor.spmatrix and Tucker tensors "
      "with scipy.sparse factor matrices are covered (five defects found by them repaired in /repo)")
+_ext("C16", "Since session 6 the premise parse(fmt v) = v is itself derived in Lean (C16_digits_roundtrip, C16_digits_discharges_hypothesis: for every finite nonzero "
+     "binary64 value, normal or subnormal, binade boundaries included, a nearest 17-significant-digit decimal read back to a nearest double is the value itself, "
+     "under any tie rule; 16 digits are proved insufficient by a witness) from two contracts of libc / NumPy - the printed token is a nearest 17-digit decimal, the reader "
+     "returns a nearest finite double - which the harness checks with exact rational arithmetic on every binade boundary and its neighbours; explicitly stored zeros of "
+     "either sign are round-tripped in every holder",
+     "the premise that '%.16e' text is read back bit-exactly by NumPy/libc is outside the theorems and is checked on every value written",
+     "the two correct-rounding contracts of printf('%.16e') and the strtod-based reader (nearest 17-digit decimal / nearest double) are outside the theorems and are "
+     "checked exactly on every value written")
